@@ -90,12 +90,13 @@ Definition set_value (col0 rw0 t : Z) (v : bytes) (sh : sheet) : sheet :=
   let sh1 := prepare_sheet_xml col rw sh in
   upd_cell col rw (fun c => mkCell (c_col c) (c_row c) (prepare_cell_style sh1 col rw (c_s c)) t v None) sh1.
 
-(* cell.go:SetCellFormula (plain formula): c.F = &xlsxF{Content: formula}; c.T = "str"; an empty formula removes it *)
+(* cell.go:SetCellFormula (plain formula): c.F = &xlsxF{Content: formula}; c.T = "str"; the cached value of a
+   shared string cell (an index) is dropped; an empty formula removes the formula *)
 Definition set_formula (col0 rw0 : Z) (f : bytes) (sh : sheet) : sheet :=
   let '(col, rw) := anchor (merges sh) col0 rw0 in
   let sh1 := prepare_sheet_xml col rw sh in
   upd_cell col rw (fun c => if is_nil f then mkCell (c_col c) (c_row c) (c_s c) (c_t c) (c_v c) None
-                            else mkCell (c_col c) (c_row c) (c_s c) 3 (c_v c) (Some f)) sh1.
+                            else mkCell (c_col c) (c_row c) (c_s c) 3 (if c_t c =? 2 then [] else c_v c) (Some f)) sh1.
 
 (* styles.go:SetCellStyle on a single cell (no merge redirect: works on coordinates) *)
 Definition set_style (col rw s : Z) (sh : sheet) : sheet :=
